@@ -47,6 +47,7 @@ def run(ctx):
     c_history_only(ctx)
     g_compound_assignment(ctx)
     g_consecutive_when(ctx)
+    g_inner_loop_offsets_kept(ctx)
     from . import C04 as _C04
     _C04.e_literal_text_verbatim(ctx, rule="C14.g.literal-text-verbatim", EVAL=EVAL1)
 
@@ -457,6 +458,28 @@ def g_consecutive_when(ctx):
               "`when A / else when B`, the second wait is skipped", line=fn.lineno)
 
 
+def g_inner_loop_offsets_kept(ctx):
+    """`while` nested in `while`: when the outer loop is compiled, the elements of its body already include the compiled inner loop, whose `break` / `continue` elements carry
+    the offsets of the INNER loop.  The outer loop writes its own offsets onto its body elements - it must leave alone every element that has offsets already, otherwise an
+    inner `break` leaves both loops."""
+    from ..pycfg import CFG
+    t, fn = _fn(ctx)
+    cfg = CFG(fn)
+    stores = [n for n in cfg.nodes if n.kind == "stmt" and isinstance(n.ast, ast.Assign) and isinstance(n.ast.targets[0], ast.Subscript)
+              and isinstance(n.ast.targets[0].slice, ast.Constant) and n.ast.targets[0].slice.value in ("_next_on_break", "_next_on_continue")
+              and not src(n.ast.targets[0].value).startswith("while_element")]
+    ctx.floor("C14.g.inner-loop-offsets", COYML, "break/continue offsets written onto loop body elements", len(stores), 2)
+    has = (lambda a: isinstance(a, ast.Compare) and len(a.ops) == 1 and isinstance(a.ops[0], ast.In) and isinstance(a.left, ast.Constant) and a.left.value in ("_next_on_break", "_next_on_continue"))
+    hasnt = (lambda a: isinstance(a, ast.Compare) and len(a.ops) == 1 and isinstance(a.ops[0], ast.NotIn) and isinstance(a.left, ast.Constant) and a.left.value in ("_next_on_break", "_next_on_continue"))
+    reach = cfg.reachable_under([cfg.entry], {has: True, hasnt: False})
+    leak = [n for n in stores if n in reach]
+    ok = bool(stores) and not leak
+    ctx.check("C14.g.inner-loop-offsets", COYML, "_extract_elements", "offsets of an inner loop are not overwritten", ok,
+              "a body element that already has break/continue offsets keeps them" if ok else
+              "`%s` is reached also for an element that already carries offsets (those of an inner loop): a `break` / `continue` inside a nested `while` then jumps by the OUTER "
+              "loop's distance and leaves both loops" % first_line(leak[0].ast, 60), line=(leak[0].line if leak else fn.lineno))
+
+
 def key_agreement(ctx, rule):
     ts = ctx.tree.ast(SLIDING)
     slide = find_function(ts, "slide")
@@ -845,6 +868,13 @@ def b_branch_indentation(ctx):
     ctx.floor("C14.b.branch-indentation", CP1, "branch registrations with an indentation", n, 4)
 
 
+def _anc_nodes(node, stop):
+    p = getattr(node, "_parent", None)
+    while p is not None and p is not stop:
+        yield p
+        p = getattr(p, "_parent", None)
+
+
 def c_start_probe(ctx):
     """To see whether a flow can start on the current event, compute_next_state first slides it from position 0 ("in case a flow starts with sliding logic").
     slide() EXECUTES `set` elements (it writes the state's context).  Probing on the live state therefore runs the leading assignments of every flow on every
@@ -861,6 +891,26 @@ def c_start_probe(ctx):
     for c in probes:
         live = src(c.args[0]) == "new_state"
         ok = not (effects and live)
+        if ok and effects and isinstance(c.args[0], ast.Name):
+            # the scratch state (and the copy of the context in it) is made PER PROBE: inside the same loop iteration as the probe, from a fresh copy expression
+            sv = c.args[0].id
+            loop = next((p_ for p_ in _anc_nodes(c, cns) if isinstance(p_, (ast.For, ast.While))), None)
+            mk = [a for a in ast.walk(cns) if isinstance(a, ast.Assign) and isinstance(a.targets[0], ast.Name) and a.targets[0].id == sv]
+            fresh = bool(mk) and loop is not None and all(any(a is y for y in ast.walk(loop)) for a in mk)
+            if fresh:
+                for a in mk:
+                    kws = {k.arg: k.value for k in a.value.keywords} if isinstance(a.value, ast.Call) else {}
+                    cv = kws.get("context")
+                    if cv is not None and isinstance(cv, ast.Name):
+                        # a name: it must itself be bound to a copy inside the loop
+                        defs = [d for d in ast.walk(cns) if isinstance(d, ast.Assign) and isinstance(d.targets[0], ast.Name) and d.targets[0].id == cv.id]
+                        fresh = fresh and bool(defs) and all(any(d is y for y in ast.walk(loop)) for d in defs)
+            if not fresh:
+                ok = False
+                ctx.check("C14.c.start-probe", FLOWS1, "compute_next_state", "scratch state of %s" % first_line(c, 50), False,
+                          "the scratch state (or the context copy in it) that the start probes slide on is made once OUTSIDE the loop over the flows: the leading statements of a flow "
+                          "that is not started leak into the probes of the flows defined after it", line=c.lineno)
+                continue
         ctx.check("C14.c.start-probe", FLOWS1, "compute_next_state", first_line(c, 70), ok,
                   "the start probe cannot change the live state" if ok else
                   "the start probe slides the flow on the LIVE state and slide() executes `set` elements (%d context writes in slide): assignments before a flow's first `user`/event step run on every event "
